@@ -349,7 +349,8 @@ def _(c):
         return {"self": st, "args": {"xyPairs": xy_shape(b)}}
     c.pre(pre)
     c.requires("I-type", lambda f: inv_type(f.self))
-    c.requires("even-length", lambda f: True if isinstance(f.a.xyPairs, tuple) else eq(f.a.xyPairs.length % 2, 0))
+    c.requires("even-length", lambda f: True if isinstance(f.a.xyPairs, tuple) else
+               (len(f.a.xyPairs) % 2 == 0 if isinstance(f.a.xyPairs, list) else eq(f.a.xyPairs.length % 2, 0)))
     c.requires("multi-pair-absolute", lambda f: True if (isinstance(f.a.xyPairs, tuple) and len(f.a.xyPairs) == 2)
                else f.self.position.X_AXIS.absoluteMode)
     c.modifies("self.position.X_AXIS.current", "self.position.Y_AXIS.current")
